@@ -1,3 +1,337 @@
-"""Static scenario generators (matrices, sweeps, orderings).  Inputs only -- no expectations."""
+"""Static scenario generators (matrices, sweeps, orderings).  Inputs only -- they contain no
+expectations; every judgement is made by TLC on the TLA+ predicates."""
+import random, copy
+
+D = 100
+
+def tx(c, m, s, a=None, funds=0, fault=0):
+    o = dict(k="tx", c=c, m=m, s=s, a=a or {})
+    if funds:
+        o["funds"] = funds
+    if fault:
+        o["fault"] = fault
+    return o
+
+def sweep(c, m, s, a=None, funds=0):
+    o = tx(c, m, s, a, funds)
+    o["k"] = "sweep"
+    return o
+
+def block(dt=15, dh=1):
+    return dict(k="block", dh=dh, dt=dt)
+
+def query(c, q, a=None):
+    return dict(k="query", c=c, q=q, a=a or {})
+
+def opn(s, side, margin, lev=1000, v="vamm1", limit=0, funds=0):
+    return tx("engine", "open_position", s, dict(vamm=v, side=side, margin=margin, leverage=lev, limit=limit), funds)
+
+def close(s, v="vamm1", limit=0):
+    return tx("engine", "close_position", s, dict(vamm=v, limit=limit))
+
+def liq(by, trader, v="vamm1", limit=0):
+    return tx("engine", "liquidate", by, dict(vamm=v, trader=trader, limit=limit))
+
+def dep(collateral="cw20", **kw):
+    d = dict(collateral=collateral, dec=2)
+    d.update(kw)
+    return d
+
+def fee_funds(native, margin, lev, toll, spread):
+    if not native:
+        return 0
+    n = margin * lev // D
+    return margin + n * toll // D + n * spread // D
+
+def underwater_prefix(native=False, toll=0, spread=0, push=5000):
+    """tr1 long 250.00 @10x, then tr2 shorts `push` notional: tr1 ends near / below maintenance."""
+    return [block(15),
+            opn("tr1", "buy", 2500, 1000, funds=fee_funds(native, 2500, 1000, toll, spread)),
+            opn("tr2", "sell", push // 10, 1000, funds=fee_funds(native, push // 10, 1000, toll, spread)),
+            block(901)]
+
+# ------------------------------------------------------------------------------------------------
+def c09(tier, seed):
+    """every privileged execute variant x every kind of sender, before and after role transfers"""
+    senders = ["owner", "pauser", "engine", "ifund", "vamm1", "tr1", "stranger", "newowner"]
+    base = dict(dec=2, engine=dict(pauser="pauser"), fpool_bal=1000,
+                vamms=[{}, dict(registered=False)])
+    variants = [
+        ("vamm1", "swap_input", dict(dir="add", amount=1000, limit=0, over=False)),
+        ("vamm1", "swap_output", dict(dir="rem", amount=50, limit=0)),
+        ("vamm1", "settle_funding", {}),
+        ("vamm1", "update_config", dict(toll=1)),
+        ("vamm1", "update_owner", dict(owner="newowner")),
+        ("vamm1", "set_open", dict(open=False)),
+        ("vamm2", "set_open", dict(open=False)),
+        ("engine", "update_config", dict(liqfee=4)),
+        ("engine", "update_config", dict(owner="newowner")),
+        ("engine", "set_pause", dict(pause=True)),
+        ("engine", "update_pauser", dict(pauser="newowner")),
+        ("engine", "add_whitelist", dict(address="tr1")),
+        ("engine", "remove_whitelist", dict(address="tr2")),
+        ("ifund", "withdraw", dict(amount=100)),
+        ("ifund", "add_vamm", dict(vamm="vamm2")),
+        ("ifund", "remove_vamm", dict(vamm="vamm1")),
+        ("ifund", "update_owner", dict(owner="newowner")),
+        ("ifund", "shutdown_vamms", {}),
+        ("fpool", "update_owner", dict(owner="newowner")),
+        ("fpool", "remove_token", {}),
+        ("fpool", "send_token", dict(amount=10, recipient="tr3")),
+        ("feed", "append_price", dict(key="ETH", price=1100, t=100000)),
+        ("feed", "append_multiple_price", dict(key="ETH", prices=[1100, 1200], ts=[100000, 100000])),
+        ("feed", "update_owner", dict(owner="newowner")),
+    ]
+    out = []
+    k = 0
+    for coll, feed in (("cw20", "real"), ("native", "mock")):
+        d = dict(base, collateral=coll, feed=feed)
+        pre_common = [block(3700), tx("engine", "add_whitelist", "pauser", dict(address="tr2"))]
+        for (c, m, a) in variants:
+            if c == "fpool" and m == "remove_token":
+                pass
+            for s in senders:
+                out.append(dict(id="c09-%d" % k, deploy=d, ops=pre_common + [tx(c, m, s, a)]))
+                k += 1
+        # fee pool add_token needs the token absent first
+        for s in senders:
+            out.append(dict(id="c09-%d" % k, deploy=d, ops=[tx("fpool", "remove_token", "owner", {}), tx("fpool", "add_token", s, {})]))
+            k += 1
+        # after a role transfer: the old holder has no rights, the new one exactly these
+        transfers = [
+            ("vamm1", tx("vamm1", "update_owner", "owner", dict(owner="newowner")), [("vamm1", "update_config", dict(spread=2)), ("vamm1", "set_open", dict(open=False)), ("vamm1", "update_owner", dict(owner="stranger"))]),
+            ("engine-owner", tx("engine", "update_config", "owner", dict(owner="newowner")), [("engine", "update_config", dict(liqfee=3))]),
+            ("engine-pauser", tx("engine", "update_pauser", "pauser", dict(pauser="newowner")), [("engine", "set_pause", dict(pause=True)), ("engine", "add_whitelist", dict(address="tr3")), ("engine", "update_pauser", dict(pauser="stranger"))]),
+            ("ifund", tx("ifund", "update_owner", "owner", dict(owner="newowner")), [("ifund", "add_vamm", dict(vamm="vamm2")), ("ifund", "remove_vamm", dict(vamm="vamm1")), ("ifund", "shutdown_vamms", {})]),
+            ("fpool", tx("fpool", "update_owner", "owner", dict(owner="newowner")), [("fpool", "send_token", dict(amount=10, recipient="tr3")), ("fpool", "remove_token", {})]),
+            ("feed", tx("feed", "update_owner", "owner", dict(owner="newowner")), [("feed", "append_price", dict(key="ETH", price=900, t=100000))]),
+            ("vamm-engine", tx("vamm1", "update_config", "owner", dict(engine="newowner")), [("vamm1", "swap_input", dict(dir="add", amount=500, limit=0, over=False)), ("vamm1", "settle_funding", {})]),
+            ("vamm-ifund", tx("vamm1", "update_config", "owner", dict(ifund="newowner")), [("vamm1", "set_open", dict(open=False))]),
+        ]
+        for (nm, t0, after) in transfers:
+            for (c, m, a) in after:
+                for s in ["owner", "pauser", "newowner", "stranger", "engine", "ifund"]:
+                    out.append(dict(id="c09-%d" % k, deploy=d, ops=[block(3700), t0, tx(c, m, s, a)]))
+                    k += 1
+    return out
+
+# ------------------------------------------------------------------------------------------------
+def c14(tier, seed):
+    out = []
+    k = 0
+    for coll in ("cw20", "native"):
+        native = coll == "native"
+        for paused in (False, True):
+            for is_open in (True, False):
+                for registered in (True, False):
+                    gates = []
+                    if not is_open:
+                        gates.append(tx("vamm1", "set_open", "owner", dict(open=False)))
+                    if not registered:
+                        gates.append(tx("ifund", "remove_vamm", "owner", dict(vamm="vamm1")))
+                    if paused:
+                        gates.append(tx("engine", "set_pause", "owner", dict(pause=True)))
+                    trials = [
+                        opn("tr3", "buy", 500, 500, funds=500 if native else 0),
+                        opn("tr2", "buy", 100, 1000, funds=100 if native else 0),
+                        close("tr2"),
+                        tx("engine", "deposit_margin", "tr2", dict(vamm="vamm1", amount=50), funds=50 if native else 0),
+                        tx("engine", "withdraw_margin", "tr2", dict(vamm="vamm1", amount=5)),
+                        liq("liq", "tr1"),
+                        tx("engine", "pay_funding", "stranger", dict(vamm="vamm1")),
+                    ]
+                    for t in trials:
+                        ops = underwater_prefix(native) + [block(3600)] + gates + [
+                            query("ifund", "is_vamm", dict(vamm="vamm1")), t]
+                        out.append(dict(id="c14-%d" % k, deploy=dep(coll, vamms=[{}, {}]), ops=ops))
+                        k += 1
+    # emergency shutdown from every subset of already-closed vAMMs (3 registered vAMMs)
+    for coll in ("cw20",):
+        for mask in range(8):
+            pre = [tx("vamm%d" % (i + 1), "set_open", "owner", dict(open=False)) for i in range(3) if mask >> i & 1]
+            for by in ("owner", "stranger"):
+                ops = [block(15)] + pre + [query("ifund", "get_all_vamm", {}), tx("ifund", "shutdown_vamms", by, {}),
+                                           query("ifund", "get_all_vamm_status", {})]
+                out.append(dict(id="c14-%d" % k, deploy=dep(coll, vamms=[{}, {}, {}]), ops=ops))
+                k += 1
+    # registry: duplicates, capacity, removal order, membership queries
+    rng = random.Random(seed)
+    for j in range(40 if tier == "quick" else 300):
+        ops = []
+        for _ in range(rng.randint(3, 10)):
+            v = "vamm%d" % rng.randint(1, 4)
+            r = rng.random()
+            if r < 0.45:
+                ops.append(tx("ifund", "add_vamm", rng.choice(["owner", "owner", "owner", "stranger"]), dict(vamm=v)))
+            elif r < 0.75:
+                ops.append(tx("ifund", "remove_vamm", rng.choice(["owner", "owner", "stranger"]), dict(vamm=v)))
+            elif r < 0.9:
+                ops.append(query("ifund", "is_vamm", dict(vamm=v)))
+            else:
+                ops.append(query("ifund", "get_all_vamm", {}))
+        ops.append(query("ifund", "get_all_vamm", {}))
+        regs = [dict(registered=rng.random() < 0.5) for _ in range(4)]
+        out.append(dict(id="c14-%d" % k, deploy=dep("cw20", vamms=regs), ops=ops))
+        k += 1
+    return out
+
+# ------------------------------------------------------------------------------------------------
+def c20(tier, seed):
+    rng = random.Random(seed + 20)
+    out = []
+    k = 0
+    bvals = [0, 1, 5, D - 1, D, D + 1, 2 * D]
+    for j in range(120 if tier == "quick" else 1200):
+        ops = []
+        for _ in range(rng.randint(2, 7)):
+            if rng.random() < 0.5:
+                a = {}
+                for f in rng.sample(["imr", "mmr", "plr", "liqfee"], rng.randint(1, 3)):
+                    a[f] = rng.choice(bvals)
+                ops.append(tx("engine", "update_config", rng.choice(["owner", "owner", "owner", "stranger"]), a))
+            else:
+                a = {}
+                for f in rng.sample(["toll", "spread", "fluct", "twapint", "hcap", "oicap"], rng.randint(1, 3)):
+                    a[f] = rng.choice([59, 60, 61, 3600, 604800, 604801, 0]) if f == "twapint" else rng.choice(bvals)
+                ops.append(tx("vamm1", "update_config", rng.choice(["owner", "owner", "owner", "stranger"]), a))
+        e = dict(imr=rng.choice([5, 10, 100]), mmr=rng.choice([0, 5]), liqfee=rng.choice([0, 5, 100]), plr=rng.choice([0, 25, 100]))
+        out.append(dict(id="c20-%d" % k, deploy=dep("cw20", engine=e), ops=ops))
+        k += 1
+    # registration requires equal decimals
+    for vdec in (1, 2, 3):
+        out.append(dict(id="c20-%d" % k, deploy=dep("cw20", vamms=[{}, dict(dec=vdec, registered=False)]),
+                        ops=[tx("ifund", "add_vamm", "owner", dict(vamm="vamm2")), query("ifund", "is_vamm", dict(vamm="vamm2"))]))
+        k += 1
+    # caps against changing caps and whitelist membership
+    for j in range(60 if tier == "quick" else 500):
+        native = rng.random() < 0.3
+        hcap = rng.choice([0, 500, 1000, 2000])
+        oicap = rng.choice([0, 10000, 30000, 60000])
+        ops = [block(15)]
+        for _ in range(rng.randint(4, 12)):
+            r = rng.random()
+            t = rng.choice(["tr1", "tr2", "tr3"])
+            if r < 0.55:
+                m = rng.choice([300, 1000, 1500, 2500, 4000])
+                side = rng.choice(["buy", "sell"])
+                ops.append(opn(t, side, m, 1000, funds=m if native else 0))
+            elif r < 0.65:
+                ops.append(close(t))
+            elif r < 0.78:
+                ops.append(tx("engine", rng.choice(["add_whitelist", "remove_whitelist"]), "owner", dict(address=t)))
+            elif r < 0.9:
+                ops.append(tx("vamm1", "update_config", "owner", rng.choice([dict(hcap=rng.choice([0, 500, 1500])), dict(oicap=rng.choice([0, 8000, 25000]))])))
+            else:
+                ops.append(block(15))
+        out.append(dict(id="c20-%d" % k, deploy=dep("native" if native else "cw20", vamms=[dict(hcap=hcap, oicap=oicap)]), ops=ops))
+        k += 1
+    return out
+
+# ------------------------------------------------------------------------------------------------
+def c08(tier, seed):
+    """fault sweeps: the same transaction with a failure injected at call 2, 3, ... of its message tree"""
+    out = []
+    k = 0
+    for coll in ("cw20", "native"):
+        native = coll == "native"
+        for (toll, spread) in ((0, 0), (10, 5)):
+            vam = [dict(toll=toll, spread=spread)]
+            F = lambda m, lev=1000: fee_funds(native, m, lev, toll, spread)
+            feeonly = lambda m, lev=1000: (F(m, lev) - m) if native else 0
+            cases = {
+                "open-fresh": ([block(15)], sweep("engine", "open_position", "tr1", dict(vamm="vamm1", side="buy", margin=2000, leverage=1000, limit=0), F(2000))),
+                "increase": ([block(15), opn("tr1", "buy", 2000, funds=F(2000))], sweep("engine", "open_position", "tr1", dict(vamm="vamm1", side="buy", margin=1000, leverage=500, limit=0), F(1000, 500))),
+                "reduce": ([block(15), opn("tr1", "buy", 2000, funds=F(2000))], sweep("engine", "open_position", "tr1", dict(vamm="vamm1", side="sell", margin=500, leverage=1000, limit=0), feeonly(500))),
+                "reverse-reopen": ([block(15), opn("tr1", "buy", 1000, funds=F(1000))], sweep("engine", "open_position", "tr1", dict(vamm="vamm1", side="sell", margin=3000, leverage=1000, limit=0), F(3000))),
+                "close": ([block(15), opn("tr1", "sell", 2000, funds=F(2000)), block(15)], sweep("engine", "close_position", "tr1", dict(vamm="vamm1", limit=0))),
+                "close-profit-short-vault": ([block(15), opn("tr1", "buy", 2000, funds=F(2000)), opn("tr2", "buy", 3000, funds=F(3000)), block(15), close("tr2"), ], sweep("engine", "close_position", "tr1", dict(vamm="vamm1", limit=0))),
+                "deposit": ([block(15), opn("tr1", "buy", 2000, funds=F(2000))], sweep("engine", "deposit_margin", "tr1", dict(vamm="vamm1", amount=300), 300 if native else 0)),
+                "withdraw": ([block(15), opn("tr1", "buy", 2000, 200, funds=F(2000, 200))], sweep("engine", "withdraw_margin", "tr1", dict(vamm="vamm1", amount=300))),
+                "liquidate": (underwater_prefix(native, toll, spread), sweep("engine", "liquidate", "liq", dict(vamm="vamm1", trader="tr1", limit=0))),
+                "liquidate-deep": (underwater_prefix(native, toll, spread, push=30000), sweep("engine", "liquidate", "liq", dict(vamm="vamm1", trader="tr1", limit=0))),
+                "pay-funding": ([block(15), opn("tr1", "buy", 3000, funds=F(3000)), block(3700)], sweep("engine", "pay_funding", "stranger", dict(vamm="vamm1"))),
+                "pay-funding-neg": ([block(15), opn("tr1", "sell", 3000, funds=F(3000)), block(3700)], sweep("engine", "pay_funding", "stranger", dict(vamm="vamm1"))),
+            }
+            for nm, (pre, sw) in cases.items():
+                for plr in ((0, 25) if nm.startswith("liquidate") else (0,)):
+                    out.append(dict(id="c08-%s-%s-%d-%d" % (nm, coll, toll, plr),
+                                    deploy=dep(coll, vamms=vam, engine=dict(plr=plr)), ops=pre + [sw, sw]))
+                    k += 1
+            # partial close through the fluctuation limit
+            out.append(dict(id="c08-partial-close-%s-%d" % (coll, toll), deploy=dep(coll, vamms=[dict(toll=toll, spread=spread, fluct=2)], engine=dict(plr=25)),
+                            ops=[block(15), opn("tr1", "buy", 150, funds=F(150)), block(15), opn("tr1", "buy", 150, funds=F(150)), block(15),
+                                 sweep("engine", "close_position", "tr1", dict(vamm="vamm1", limit=0))]))
+    # naturally occurring failures
+    nat = [
+        ("allowance", dep("cw20", allowance=0), [opn("tr1", "buy", 2000)]),
+        ("small-allowance", dep("cw20", allowance=1500, vamms=[dict(toll=10, spread=10)]), [opn("tr1", "buy", 1000), opn("tr1", "buy", 1000)]),
+        ("balance", dep("cw20", trader_bal=1000), [opn("tr1", "buy", 2000)]),
+        ("closed", dep("cw20"), [opn("tr1", "buy", 2000), tx("vamm1", "set_open", "owner", dict(open=False)), close("tr1"), opn("tr1", "buy", 100)]),
+        ("slippage", dep("cw20"), [opn("tr1", "buy", 2000, limit=999999), opn("tr1", "buy", 2000), close("tr1", limit=999999)]),
+        ("native-short", dep("native"), [opn("tr1", "buy", 2000, funds=1999), opn("tr1", "buy", 2000, funds=2001), opn("tr1", "buy", 2000, funds=0)]),
+        ("ifund-empty", dep("cw20", ifund_bal=0), underwater_prefix(False, 0, 0, 30000) + [liq("liq", "tr1")]),
+    ]
+    for nm, d, ops in nat:
+        out.append(dict(id="c08-nat-" + nm, deploy=d, ops=[block(15)] + ops))
+    return out
+
+# ------------------------------------------------------------------------------------------------
+def c16(tier, seed):
+    """orderings of {trade by A, trade by B, liquidation of C by L, next block}"""
+    import itertools
+    out = []
+    k = 0
+    for coll in ("cw20", "native"):
+        native = coll == "native"
+        acts = {
+            "A": opn("tr2", "sell", 300, 1000, funds=300 if native else 0),
+            "A2": close("tr2"),
+            "B": opn("tr3", "buy", 200, 1000, funds=200 if native else 0),
+            "Lq": liq("liq", "tr1"),
+            "Lopen": opn("liq", "buy", 200, 1000, funds=200 if native else 0),
+            "Lclose": close("liq"),
+            "C": opn("tr1", "buy", 100, 1000, funds=100 if native else 0),
+            "N": block(15),
+        }
+        seqs = set()
+        names = list(acts)
+        rng = random.Random(seed + 16)
+        for _ in range(60 if tier == "quick" else 400):
+            n = rng.randint(3, 7)
+            seqs.add(tuple(rng.choice(names) for _ in range(n)))
+        for plr in (0, 25):
+            for sq in sorted(seqs):
+                if "Lq" not in sq:
+                    continue
+                ops = underwater_prefix(native) + [acts[a] for a in sq]
+                out.append(dict(id="c16-%d" % k, deploy=dep(coll, engine=dict(plr=plr)), ops=ops))
+                k += 1
+    return out
+
+# ------------------------------------------------------------------------------------------------
+def c03(tier, seed):
+    """fee pool payouts and stray third parties"""
+    out = []
+    for coll in ("cw20", "native"):
+        out.append(dict(id="c03-sendtoken-" + coll, deploy=dep(coll, fpool_bal=500),
+                        ops=[tx("fpool", "send_token", "owner", dict(amount=100, recipient="tr3")),
+                             tx("fpool", "send_token", "owner", dict(amount=1000, recipient="tr3")),
+                             tx("fpool", "send_token", "stranger", dict(amount=10, recipient="stranger"))]))
+    return out
+
 def for_property(pid, tier, seed):
+    if pid == "C09":
+        return [("c09matrix", c09(tier, seed))]
+    if pid == "C14":
+        return [("c14gates", c14(tier, seed))]
+    if pid == "C20":
+        return [("c20config", c20(tier, seed))]
+    if pid == "C08":
+        return [("c08sweeps", c08(tier, seed))]
+    if pid == "C16":
+        return [("c16orderings", c16(tier, seed))]
+    if pid == "C03":
+        return [("c03fpool", c03(tier, seed)), ("c08sweeps", c08(tier, seed))]
+    if pid in ("C02", "C06", "C07", "C10", "C12", "C04", "C05"):
+        return [("c08sweeps", c08(tier, seed)), ("c16orderings", c16(tier, seed))]
     return []
